@@ -89,7 +89,15 @@ type Lemma struct {
 	Expect string // "" (must hold) or "fail" is not allowed; kept for known-finding bookkeeping
 }
 
+type CallersRule struct {
+	Callee  string
+	Props   []string
+	Allowed []string
+	Where   string
+}
+
 type Contracts struct {
+	Callers []*CallersRule
 	Funcs  map[string]*FuncContract
 	Types  map[string]*TypeContract
 	Lemmas []*Lemma
@@ -135,7 +143,7 @@ func (cs *Contracts) LoadFile(path string) error {
 		if k := strings.IndexAny(l, " \t("); k >= 0 {
 			first = l[:k]
 		}
-		isHead := first == "func" || first == "type" || first == "lemma" || first == "axiom" || first == "iface"
+		isHead := first == "func" || first == "type" || first == "lemma" || first == "axiom" || first == "iface" || first == "callers"
 		if isHead || clauseKeywords[first] || len(items) == 0 {
 			items = append(items, l)
 			iw = append(iw, wheres[i])
@@ -189,6 +197,27 @@ func (cs *Contracts) LoadFile(path string) error {
 			if w2 == "property" {
 				curT.Props = strings.Fields(r3)
 			}
+		case "callers":
+			curF, curT = nil, nil
+			// callers <callee> property Cxx ... : caller, caller
+			k := strings.Index(rest, ":")
+			if k < 0 {
+				return fmt.Errorf("%s: callers <callee> property <ids> : <allowed callers>", where)
+			}
+			head := strings.Fields(rest[:k])
+			cr := &CallersRule{Callee: head[0], Where: where}
+			for i, h := range head[1:] {
+				if i == 0 && h == "property" {
+					continue
+				}
+				cr.Props = append(cr.Props, h)
+			}
+			for _, a := range strings.Split(rest[k+1:], ",") {
+				if a = strings.TrimSpace(a); a != "" {
+					cr.Allowed = append(cr.Allowed, a)
+				}
+			}
+			cs.Callers = append(cs.Callers, cr)
 		case "lemma", "axiom":
 			curF, curT = nil, nil
 			// lemma name [property Cxx] [uses a b] [forall vars] : expr
